@@ -24,8 +24,19 @@ def load_ledger(prop):
     return None
 
 
+_native_cache = {}
+
+
 def run_native(script, timeout=300):
-    """Run a replay script against the real code (nutils is installed editable from /repo/src)."""
+    """Run a replay script against the real code (nutils is installed editable from /repo/src).
+    Identical scripts (same recipe for several obligations of one contract) are run once per check."""
+    if script in _native_cache:
+        return _native_cache[script]
+    r = _native_cache[script] = _run_native(script, timeout)
+    return r
+
+
+def _run_native(script, timeout=300):
     env = dict(os.environ)
     env.pop('PYTHONPATH', None)
     env['PYTHONDONTWRITEBYTECODE'] = '1'
